@@ -1,6 +1,7 @@
-import flags_check, latency_check
+import flags_check, latency_check, conn_check
 
 CHECKS = {
+    "C08": conn_check.run,
     "C17": flags_check.run,
     "C18": latency_check.run,
 }
